@@ -3,6 +3,7 @@ import SaModel.Lemmas.C16FromType
 import SaModel.Lemmas.C16Depth
 import SaModel.Lemmas.C16Time
 import SaModel.Lemmas.C16SchemaJson
+import SaModel.Lemmas.C16DeepTerm
 import SaModel.Lemmas.C12Batch
 import SaModel.Props.C17
 import SaModel.Props.C14
@@ -521,6 +522,24 @@ text.  Nesting deeper than the model's fuel is an ordinary error; Rust recurses 
 expressible, see notes). -/
 theorem termFromStr_no_panic (s : Text) (site : String) : Term.fromStr s ≠ panic site :=
   Lemmas.C16.ne_panic_of_isPanic (Lemmas.C16.fromStrWith_np false s) site
+
+/-- the parser's recursion is bounded (fix c368604): every term it returns is nested at most `MAX_TERM_DEPTH` = 32
+levels deep … -/
+theorem termFromStr_depth_bounded (s : Text) (t : Term) (h : Term.fromStr s = .ok t) : t.depth ≤ MAX_TERM_DEPTH :=
+  Lemmas.C16.fromStr_depth_le false s t h
+
+open SaModel.Lemmas.C16 (nestTerm) in
+/-- … and the texts `A(A(…(I8)…))` with `n` levels (`showTerm esc (nestTerm n)`, 3n + 2 characters) are read back while
+`n ≤ MAX_TERM_DEPTH` and refused with an ERROR beyond — for every `n`, i.e. for texts of any size; as a data type every
+one of them with `n ≥ 1` is an error.  Before the fix the real parser exhausted the stack on such a text from some
+50 000 levels on (process abort; the `overflow` suite replays `n` up to 10^6 on every run). -/
+theorem deepTerm_refused (esc : Char → Bool) (n : Nat) (children : List Field) :
+    Term.fromStr (showTerm esc (nestTerm n)) =
+      (if n ≤ MAX_TERM_DEPTH then .ok (nestTerm n) else fail "Term is nested too deeply") ∧
+    (buildDataType (showTerm esc (nestTerm (n + 1))) children).isErr = true :=
+  ⟨Lemmas.C16.fromStr_nest esc n, Lemmas.C16.buildDataType_nest esc n children⟩
+
+example : String.ofList (showTerm (fun _ => false) (Lemmas.C16.nestTerm 3)) = "A(A(A(I8)))" := by decide
 
 /-- `build_data_type(data_type, children)`: every text, every list of children -/
 theorem buildDataType_no_panic (dataType : Text) (children : List Field) (site : String) :
